@@ -2,7 +2,7 @@
    `C28 deco <rm|add> <pat> <method> <target>`                                  → `ok <resp>`
    `C28 auth <loggedIn T|F> <login> <hasScheme T|F> <proto> <host> <pat> <method> <target>` → `ok <resp>`
    `C28 static <root> <default|~> <pat> <target> [[path,kind],…]`                → `ok <resp>`
-   `C28 sameSite <loc>`   `C28 loginOk <login> <loc>` -/
+   `C28 sameSite <loc>`   `C28 onSameHost <loc>`   `C28 loginOk <login> <loc>` -/
 import TornadoModel.Base.Wire
 import TornadoModel.C26.Drv
 import TornadoModel.C28.Spec
@@ -52,6 +52,9 @@ def handle (toks : List String) : String :=
       | _, _, _, _, _ => err "bad-arg"
     | "sameSite", [l] => match l.cps? with
       | some l => ok [V.ofBool (Spec.sameSite l)]
+      | none => err "bad-arg"
+    | "onSameHost", [l] => match l.cps? with
+      | some l => ok [V.ofBool (Spec.onSameHost l)]
       | none => err "bad-arg"
     | "loginOk", [a, l] => match a.cps?, l.cps? with
       | some a, some l => ok [V.ofBool (Spec.loginRedirectOk a l)]
